@@ -100,6 +100,55 @@ def run(ck):
             ck.violation("tag at offset 10 is not HMAC(key, bytes[48..EOF)) (hmode %d)" % c.hm, rep)
         elif any(f[10 + len(ref):48]):
             ck.violation("bytes between the tag and offset 48 are not all zero", rep)
+    object_reuse(ck, exe)
     if ck.tier == "thorough":
         production_scale(ck)     # 40 MiB and > 4 GiB with the production constants (props/filegen.py)
     return finish_proof(ck, rule="hmac: message lengths 0..139 (thorough 0..399) and around refill multiples x 3 hashes, random 16-byte keys; cmphmac: equal tag, one flipped bit in first/middle/last byte (thorough: every byte), junk after the tag; file level: tag field [10,48) of %d encrypted files vs Python hmac over [48,EOF). distinct = distinct case lines" % len(cases))
+
+
+def object_reuse(ck, exe):
+    """ONE hmac object used for a sequence of operations with changing hash modes (driver op hmseq): tags, verdicts, and - after
+    writeFileHmac on a file whose tag field is zero - the field [10,48) must be the tag followed by zeros, whatever the object
+    computed before (a longer digest left in a reused buffer shows only in such a sequence)"""
+    r = ck.rng
+    lines, want = [], {}
+    for s in range(60 if ck.tier == "thorough" else 18):
+        key = rnd_bytes(r, 16)
+        ops, exp = [], []
+        hms = [r.randrange(3) for _ in range(r.randrange(2, 6))]
+        if s % 3 == 0:
+            hms = sorted(hms, reverse=True) + [r.choice([0, 1])]      # longer digests first (2 = SHA-256, 0 = SHA-1, 1 = MD5)
+            hms[0] = 2
+        for j, hm in enumerate(hms):
+            kind = "w" if j == len(hms) - 1 else r.choice("gcw")
+            if kind == "g":
+                m = rnd_bytes(r, r.randrange(0, 150))
+                ops.append("g,%d,%s" % (hm, wv.hexs(m)))
+                exp.append(pyhmac.new(key, m, PY[hm]).hexdigest())
+            elif kind == "c":
+                m = rnd_bytes(r, r.randrange(0, 150))
+                t = bytearray(pyhmac.new(key, m, PY[hm]).digest())
+                good = r.random() < 0.5
+                if not good:
+                    t[r.randrange(len(t))] ^= 1 << r.randrange(8)
+                ops.append("c,%d,%s,%s" % (hm, wv.hexs(m), bytes(t).hex()))
+                exp.append("1" if good else "0")
+            else:
+                f = bytearray(rnd_bytes(r, 48 + r.randrange(0, 200)))
+                f[10:48] = bytes(38)
+                tag = pyhmac.new(key, bytes(f[48:]), PY[hm]).digest()
+                ops.append("w,%d,%s" % (hm, bytes(f).hex()))
+                exp.append((bytes(f[:10]) + tag + bytes(38 - len(tag))).hex())
+        lines.append("q%d hmseq %s %s" % (s, key.hex(), ";".join(ops)))
+        want["q%d" % s] = " ".join(exp)
+    got = wv.run_lines([exe], lines, env=small_env(ck))
+    for l in lines:
+        cid = l.split()[0]
+        ck.cov["evaluations"] += 1
+        if got.get(cid) != want[cid]:
+            g, w = (got.get(cid) or "(no output)").split(" "), want[cid].split(" ")
+            k = next((i for i in range(len(w)) if i >= len(g) or g[i] != w[i]), 0)
+            ck.violation("operation %d of a sequence on one hmac object gives a wrong tag / verdict / tag field (offsets 0..47 after writeFileHmac)" % k,
+                         {"class": None, "case": l[:3000], "operation_index": k, "implementation": g[k] if k < len(g) else "(missing)", "expected": w[k], "driver_flags": ck.impl_flags,
+                          "replay": "echo 'x <case>' | harness/drv.cpp built against /repo"})
+    ck.cov.setdefault("case_classes", {})["hmac-object-reused"] = len(lines)
